@@ -231,7 +231,21 @@ func (g *Gen) GenerateSpec(fs geneval.FileSpec, o geneval.Options) *GenFile {
 	return gf
 }
 
-func (g *Gen) ParseAndCheck(gf *GenFile) {
+func (g *Gen) ParseAndCheck(gf *GenFile) { g.parseAndCheckAs(gf, "gen", nil) }
+
+type extraImporter struct {
+	base  types.Importer
+	extra map[string]*types.Package
+}
+
+func (e extraImporter) Import(path string) (*types.Package, error) {
+	if p, ok := e.extra[path]; ok {
+		return p, nil
+	}
+	return e.base.Import(path)
+}
+
+func (g *Gen) parseAndCheckAs(gf *GenFile, pkgPath string, extra map[string]*types.Package) {
 	gf.Fset = token.NewFileSet()
 	name := fmt.Sprintf("gen_b%d_%s.go", gf.Batch, gf.Opts)
 	af, err := parser.ParseFile(gf.Fset, name, gf.Text, parser.ParseComments|parser.SkipObjectResolution)
@@ -248,12 +262,12 @@ func (g *Gen) ParseAndCheck(gf *GenFile) {
 		Implicits:  map[ast.Node]types.Object{},
 		Scopes:     map[ast.Node]*types.Scope{},
 	}
-	conf := types.Config{Importer: g.imp, Error: func(err error) {
+	conf := types.Config{Importer: extraImporter{base: g.imp, extra: extra}, Error: func(err error) {
 		if te, ok := err.(types.Error); ok {
 			gf.TypeErrs = append(gf.TypeErrs, te)
 		}
 	}}
-	pkg, _ := conf.Check("gen", gf.Fset, []*ast.File{af}, gf.Info)
+	pkg, _ := conf.Check(pkgPath, gf.Fset, []*ast.File{af}, gf.Info)
 	gf.Pkg = pkg
 	for _, d := range af.Decls {
 		fd, ok := d.(*ast.FuncDecl)
